@@ -61,6 +61,8 @@ def policy_step(policy, thr):
         return {"k": "immediate"}
     if policy == "interval":
         return {"k": "interval", "ms": 25}
+    if policy == "sizeOrLongInterval":     # IntervalOrBufferSize with an interval far beyond the scenario: behaves like the size policy
+        return {"k": "intervalOrSize", "ms": 60000, "size": thr * UNIT}
     return {"k": "none"}
 
 
